@@ -20,7 +20,10 @@ NearDays(rel, D) ==
               DayDur(k) == IF DurSign(D) >= 0 THEN Dur10(Zero, Zero, Zero, FromInt(n + k), Zero, Zero, Zero, Zero, Zero, tns)
                        ELSE IF IsZero(tns) THEN Dur10(Zero, Zero, Zero, FromInt(n + k), Zero, Zero, Zero, Zero, Zero, Zero)
                        ELSE Dur10(Zero, Zero, Zero, FromInt(n + 1 + k), Zero, Zero, Zero, Zero, Zero, Neg(Sub(DayNsBig, tns)))
-          IN {d \in {DayDur(-1), DayDur(0), DayDur(1)} : SignUniform(d)}
+              \* the same three with one day carried as 24 (or 48) hours in the hours field: an unbalanced time part that outweighs the day gap
+              Unb(d, hrs) == LET sg == DurSign(d) IN [d EXCEPT !.d = Sub(d.d, FromInt(sg * (hrs \div 24))), !.h = FromInt(sg * hrs)]
+              base == {DayDur(-1), DayDur(0), DayDur(1)}
+          IN {d \in base \cup {Unb(d, 24) : d \in base} \cup {Unb(d, 48) : d \in base} : SignUniform(d)}
 Next == /\ (OneStep => last = None)
         /\ \/ \E o \in Opts : UnitLe(o.sm, o.lg) /\ RoundAct(o)
            \/ \E u \in TotalUnits : TotalAct(u)
